@@ -81,18 +81,19 @@ CHECKS = {
             'import/export/function names.',
             'Trusts the sanitizers\' detection and the interpreter; sNaN immediates/arguments excluded (known finding under C02).',
             'DESIGN.md section 7 C11'),
-    'C10': ('F2 translator invariants (ASan+UBSan build of the unmodified w2c2, out of process)',
-            'fuzzing/PBT of the translator: generated valid modules from every mode + spec-suite corpus + names/stress shapes x '
+    'C10': ('F2 translator invariants (ASan+UBSan and MemorySanitizer builds of the unmodified w2c2, out of process)',
+            'fuzzing/PBT of the translator: generated valid modules from every mode + spec-suite corpus + names/stress/count-sweep shapes x '
             'generated option sets, and exhaustive/sampled truncation of each file; oracle = exit status rule + AddressSanitizer/'
-            'UBSan silence',
+            'UBSan/MemorySanitizer silence',
             'Generated-input search with the sanitizer-instrumented translator as system under test: valid modules must give exit '
             '0 with no signal and no sanitizer report under any option set; every proper prefix must give exit 0 or a diagnosed '
             'non-zero exit, never a memory error. Truncation is exhaustive for small files (every cut), sampled for larger ones.',
             'Trusts ASan/UBSan detection; allocation-failure paths not injected; hang guard 120 s.', 'DESIGN.md section 7 C10'),
     'C08': ('F2 translator invariants + in-process rapidcheck unit (c/rc_leb128.cpp)',
             'metamorphic PBT: one decoded module, many spec-equivalent encodings (LEB128 padding, custom sections, flag-2 data '
-            'segments, empty vs omitted sections, DataCount) -> same multiset of C definitions + same behaviour; rapidcheck '
-            'round-trip of the LEB128 decoders over all legal paddings under ASan',
+            'segments, empty vs omitted sections, DataCount, exact file sizes) -> same multiset of C definitions + same behaviour, '
+            'MemorySanitizer build of the translator silent and byte-identical; rapidcheck round-trip of the LEB128 decoders over '
+            'all legal paddings under ASan',
             'Metamorphic search: every generated encoding must be accepted and translate to the same set of top-level C '
             'definitions as the canonical encoding of the same module (compared within one w2c2 build), reruns are byte-identical, '
             'and a padded encoding is compiled and run against the interpreter. The LEB128 readers are additionally checked in '
@@ -172,19 +173,21 @@ CHECKS = {
             '"one reversal of exactly that width" relation; 8-bit accesses and bulk copies must be identical.',
             'No big-endian host/emulator exists here: the property is decided in the forced-configuration frame it names.',
             'DESIGN.md section 7 C19'),
-    'C17': ('F4 vsched (c/vsched.c: linker-interposed deterministic scheduler) + c/sched_harness.c + linearizable model in vf/sched.py',
+    'C17': ('F4 vsched (c/vsched.c: linker-interposed deterministic scheduler) + c/sched_harness.c + linearizable model in vf/sched.py + rapidcheck model test c/rc_futexmap.cpp',
             'schedule-as-input PBT: generated per-thread wait/notify/store programs x generated decision strings (next thread, '
             'spurious wake-ups, signalled waiter, timeout firing) executed deterministically under --wrap=pthread_* interposition; '
-            'oracle = linearizable model at the mutex acquisition; programs and decision strings are shrunk',
+            'oracle = linearizable model at the mutex acquisition; programs and decision strings are shrunk; rapidcheck model-based '
+            'test of the futex map + wait lists against std::map (ASan+UBSan)',
             'The harness owns the schedule: every lock/unlock/wait/signal of futex.c and the runtime header is a scheduling point '
             'whose outcome comes from the generated decision string, so lost wake-ups, double counts, wrong return codes, waking '
             'waiters of colliding addresses, deadlocks and stuck waiters are reproducible histories checked against the model; '
             'the module under test is w2c2-translated with non-zero static offsets; ASan/UBSan build.',
             'Schedules are sampled (tens of thousands per run), not enumerated; vsched models POSIX condition-variable semantics.',
             'DESIGN.md section 7 C17, Appendix A'),
-    'C18': ('F4 vsched harness + ThreadSanitizer real-thread harness',
+    'C18': ('F4 vsched harness + ThreadSanitizer / AddressSanitizer real-thread harnesses',
             'schedule-as-input PBT of concurrent memory.grow/size/load/store programs under vsched with a sequential-order oracle '
-            'at the mutex acquisition, plus real-thread runs under ThreadSanitizer',
+            'at the mutex acquisition, plus real-thread runs under ThreadSanitizer (small memories, and generated grow sequences of '
+            'gigabyte-sized shared memories under concurrent data accesses with a chain / read-back oracle)',
             'Every mutex operation is a scheduling point, so a grower can be preempted between looking at the size and taking '
             'the lock; successful grows ordered by lock acquisition must form one chain, stay below the maximum and sum to the '
             'final page count; TSan must report no race between grow, size queries and data accesses.',
